@@ -764,11 +764,16 @@ impl<E: Effect> Executor<E> {
         result: Value,
         heap: Vec<Vec<u8>>,
     ) -> Result<(), Error> {
-        // Inject heap data into the result value
-        let injected_result = self.inject_heap_data(result, &heap)?;
+        // Only a process whose current select still awaits this target stores the result (a stale
+        // registration from an earlier, already completed select is ignored).
+        let still_awaiting = self
+            .get_process(awaiter)
+            .is_some_and(|p| p.result.is_none() && p.awaiting.contains_key(&awaited));
 
         // Store the result in the process's awaiting map (retaining as it enters storage).
-        if self.get_process(awaiter).is_some() {
+        if still_awaiting {
+            // Inject heap data into the result value
+            let injected_result = self.inject_heap_data(result, &heap)?;
             self.retain(&injected_result);
             let previous = self
                 .get_process_mut(awaiter)
@@ -787,6 +792,27 @@ impl<E: Effect> Executor<E> {
         }
 
         Ok(())
+    }
+
+    /// Record that a process awaited by `awaiter`'s current select has failed. The failure is a
+    /// ready source of that select: it is propagated when the select reaches the source in written
+    /// order. A process that no longer awaits the target (its select already completed, or it has
+    /// finished) is unaffected.
+    pub fn notify_failure(&mut self, awaiter: ProcessId, awaited: ProcessId, error: Error) {
+        let still_awaiting = self
+            .get_process(awaiter)
+            .is_some_and(|p| p.result.is_none() && p.awaiting.contains_key(&awaited));
+        if !still_awaiting {
+            return;
+        }
+        if let Some(process) = self.get_process_mut(awaiter) {
+            process.awaiting_failed.insert(awaited, error);
+        }
+
+        // Re-queue awaiter to retry its Select instruction
+        if self.selecting.remove(&awaiter) {
+            self.queue.push_back(awaiter);
+        }
     }
 
     /// Notify a process that an effect operation completed
@@ -1278,11 +1304,8 @@ impl<E: Effect> Executor<E> {
                             .ok(); // Ignore errors since this is internal notification
                     }
                     Some(Err(error)) => {
-                        // Error - propagate to awaiter by setting their result
-                        if let Some(awaiter_process) = self.get_process_mut(awaiter) {
-                            awaiter_process.result = Some(Err(error.clone()));
-                            awaiter_process.frames.clear();
-                        }
+                        // Error - the awaiter's select propagates it when it reaches this source
+                        self.notify_failure(awaiter, current_pid, error.clone());
                     }
                     None => {
                         // No result yet (shouldn't happen at this point)
@@ -2379,6 +2402,11 @@ impl<E: Effect> Executor<E> {
             .get_process(pid)
             .ok_or(Error::InvalidArgument("Process not found".to_string()))?;
 
+        // A failed target propagates its error
+        if let Some(error) = process.awaiting_failed.get(&target_pid) {
+            return Err(error.clone());
+        }
+
         // Check if result is available (we've already awaited upfront)
         if let Some(result_opt) = process.awaiting.get(&target_pid)
             && let Some(result) = result_opt
@@ -2646,15 +2674,36 @@ impl<E: Effect> Executor<E> {
             .select_state
             .take();
         if let Some(state) = state {
+            // The awaits registered for this select end with it: drop the entries (and the
+            // references stored results held), so that a later completion or failure of a target
+            // no longer concerns this process.
+            let mut stored = Vec::new();
+            if let Some(process) = self.get_process_mut(pid) {
+                for source in &state.sources {
+                    if let Value::Process(target, _) = source {
+                        if let Some(Some(value)) = process.awaiting.remove(target) {
+                            stored.push(value);
+                        }
+                        process.awaiting_failed.remove(target);
+                    }
+                }
+            }
             for source in &state.sources {
                 self.release(source);
             }
             if let Some((_, message)) = &state.receiving {
                 self.release(message);
             }
+            // The result (a clone of a stored value when it came from an await) is retained
+            // before the stored values are released, so a shared slot stays counted throughout.
+            self.retain(&result);
+            for value in &stored {
+                self.release(value);
+            }
+        } else {
+            self.retain(&result);
         }
 
-        self.retain(&result);
         let process = self
             .get_process_mut(pid)
             .ok_or(Error::InvalidArgument("Process not found".to_string()))?;
